@@ -120,10 +120,14 @@ fn c10_intervals(rep: &mut Report, f: &Fold, thorough: bool, rng: &mut Rng) {
             rep.case(&format!("addicase {:x}-{:x}", a, b), got.len() > 1);
             rep.count("addicase-intervals");
             if got != ivs {
-                let miss = ivs.iter().flat_map(|(x, y)| *x..=*y).find(|c| !got.iter().any(|(x, y)| x <= c && c <= y));
+                let miss = ivs
+                    .iter()
+                    .flat_map(|(x, y)| *x..=*y)
+                    .find(|c| !got.iter().any(|(x, y)| x <= c && c <= y))
+                    .or_else(|| got.iter().flat_map(|(x, y)| *x..=*y).find(|c| !ivs.iter().any(|(x, y)| x <= c && c <= y)));
                 rep.violation(
                     "impl-vs-oracle:C10",
-                    format!("add_icase_code_points([{:x}-{:x}]) is not the closure under Unicode 17 simple case folding (e.g. U+{:04X} missing or extra)", a, b, miss.unwrap_or(0)),
+                    format!("add_icase_code_points([{:x}-{:x}]) is not the closure under Unicode 17 simple case folding (first difference at U+{:04X}: missing or extra)", a, b, miss.unwrap_or(0)),
                     format!("F8CTX flags=iu cps={:x}.{:x}", a, b),
                 );
             }
